@@ -127,6 +127,8 @@ class C18(Prop):
             if self.design:
                 self.compare_model(w, n)
             self.first = extract(n, by="name")
+            if self.first is None:
+                raise Violation("C18.read.no_top", src, "the parsed netlist has no top instance (or it has no definition)")
             if any(g for g in self.first["partition"]):
                 w.count("probe.design_with_connections")
         elif tag == "write":
@@ -143,6 +145,9 @@ class C18(Prop):
             n = w.h("e%d.0" % ev["i"])
             b = extract(n, by="name")
             a = self.first
+            if b is None:
+                raise Violation("C18.roundtrip.no_top", src, "the netlist read back from the written text has no top "
+                                                            "instance (or it has no definition)")
             names_a = [i["name"] for i in a["insts"]]
             if len(set(names_a)) != len(names_a):
                 w.count("probe.duplicate_instance_names_skip")
